@@ -18,6 +18,7 @@ type sym struct {
 	classify func(e ast.Expr) string         // predicate name of an atomic condition, "" if unknown
 	effect   func(n ast.Node) string         // effect name of a statement/call, "" if none
 	scen     map[string]bool
+	fixed    map[string]bool // predicates that are not enumerated
 	effects  []string
 	unknown  []string
 	ctl      string // "", break, continue, return
@@ -49,6 +50,9 @@ func (s *sym) cond(e ast.Expr) bool {
 	if p == "" {
 		s.unknown = append(s.unknown, "condition "+src(s.f.fset, e))
 		return false
+	}
+	if v, ok := s.fixed[p]; ok {
+		return v != neg
 	}
 	return s.scen[p] != neg
 }
@@ -174,8 +178,14 @@ func (s *sym) stmt(st ast.Stmt) {
 	case *ast.BlockStmt:
 		s.block(x.List)
 	case *ast.DeferStmt:
-		if e := s.effect(x.Call); e != "" {
+		if e := s.effect(x); e != "" {
+			s.effects = append(s.effects, e)
+		} else if e := s.effect(x.Call); e != "" {
 			s.effects = append(s.effects, "defer:"+e)
+		}
+	case *ast.GoStmt:
+		if e := s.effect(x); e != "" {
+			s.effects = append(s.effects, e)
 		}
 	default:
 		s.note(st)
@@ -184,6 +194,10 @@ func (s *sym) stmt(st ast.Stmt) {
 
 // runScenarios executes fd's body for every scenario and renders Lean rows `(["p=true", …], ["effect", …])`.
 func (f *facts) runScenarios(fd *ast.FuncDecl, preds []string, classify func(ast.Expr) string, effect func(ast.Node) string) ([]string, []string) {
+	return f.runScenariosFixed(fd, preds, nil, nil, classify, effect)
+}
+
+func (f *facts) runScenariosFixed(fd *ast.FuncDecl, preds []string, fixed map[string]bool, drop map[string]bool, classify func(ast.Expr) string, effect func(ast.Node) string) ([]string, []string) {
 	var rows, unknown []string
 	n := 1 << len(preds)
 	for m := 0; m < n; m++ {
@@ -193,11 +207,13 @@ func (f *facts) runScenarios(fd *ast.FuncDecl, preds []string, classify func(ast
 			sc[p] = m&(1<<i) != 0
 			name = append(name, fmt.Sprintf("%q", fmt.Sprintf("%s=%v", p, sc[p])))
 		}
-		s := &sym{f: f, classify: classify, effect: effect, scen: sc}
+		s := &sym{f: f, classify: classify, effect: effect, scen: sc, fixed: fixed}
 		s.block(fd.Body.List)
 		var eff []string
 		for _, e := range s.effects {
-			eff = append(eff, fmt.Sprintf("%q", e))
+			if !drop[e] {
+				eff = append(eff, fmt.Sprintf("%q", e))
+			}
 		}
 		rows = append(rows, fmt.Sprintf("([%s], [%s])", strings.Join(name, ", "), strings.Join(eff, ", ")))
 		unknown = append(unknown, s.unknown...)
@@ -382,6 +398,239 @@ func (f *facts) flowTables(conn, tr *ast.File) string {
 		}
 		rows, unk := f.runScenarios(fd, []string{"exchangeFailed", "noRecord", "released"}, classify, effect)
 		emit("runFlow", rows, unk)
+	}
+	// (*Conn).doRequest
+	if fd := findFunc(conn, "Conn", "doRequest"); fd != nil {
+		ps := paramNames(fd.Type)
+		classify := func(e ast.Expr) string {
+			if bx, ok := e.(*ast.BinaryExpr); ok && (bx.Op == token.EQL || bx.Op == token.NEQ) && src(f.fset, bx.Y) == "nil" {
+				if bx.Op == token.EQL {
+					return "!writeFailed"
+				}
+				return "writeFailed"
+			}
+			return ""
+		}
+		effect := func(n ast.Node) string {
+			switch x := n.(type) {
+			case *ast.IncDecStmt:
+				if strings.HasSuffix(src(f.fset, x.X), ".correlationID") {
+					return "nextId"
+				}
+			case *ast.CallExpr:
+				p := selPath(x.Fun)
+				switch {
+				case strings.HasSuffix(p, ".enter"):
+					return "enter"
+				case strings.HasSuffix(p, ".leave"):
+					return "leave"
+				case strings.HasSuffix(p, ".wlock.Lock"):
+					return "lock"
+				case strings.HasSuffix(p, ".wlock.Unlock"):
+					return "unlock"
+				case strings.HasSuffix(p, ".conn.Close"):
+					return "close"
+				case len(ps) >= 2 && p == ps[1]:
+					return "write"
+				}
+			}
+			return ""
+		}
+		rows, unk := f.runScenarios(fd, []string{"writeFailed"}, classify, effect)
+		emit("doRequestFlow", rows, unk)
+	}
+
+	// protocol.RoundTrip
+	if fd := findFunc(f.files["protocol/roundtrip.go"], "", "RoundTrip"); fd != nil {
+		ps := paramNames(fd.Type)
+		last := ""
+		classify := func(e ast.Expr) string {
+			if bx, ok := e.(*ast.BinaryExpr); ok && (bx.Op == token.EQL || bx.Op == token.NEQ) {
+				l, r := src(f.fset, bx.X), src(f.fset, bx.Y)
+				neg := ""
+				if bx.Op == token.EQL {
+					neg = "!"
+				}
+				if r == "nil" {
+					if last == "write" {
+						return neg + "writeFailed"
+					}
+					return neg + "readFailed"
+				}
+				if len(ps) >= 3 && (l == ps[2]) != (r == ps[2]) {
+					return neg + "idMismatch"
+				}
+			}
+			if _, ok := callEnds(e, "hasResponse"); ok {
+				return "expectsResponse"
+			}
+			return ""
+		}
+		effect := func(n ast.Node) string {
+			switch x := n.(type) {
+			case *ast.CallExpr:
+				switch selPath(x.Fun) {
+				case "WriteRequest":
+					last = "write"
+					return "write"
+				case "ReadResponse":
+					last = "read"
+					return "read"
+				}
+			case *ast.ReturnStmt:
+				if len(x.Results) == 2 {
+					a, e2 := src(f.fset, x.Results[0]), src(f.fset, x.Results[1])
+					switch {
+					case a == "nil" && e2 == "nil":
+						return "return:nothing"
+					case e2 == "nil":
+						return "return:response"
+					default:
+						return "return:error"
+					}
+				}
+			}
+			return ""
+		}
+		rows, unk := f.runScenarios(fd, []string{"writeFailed", "expectsResponse", "readFailed", "idMismatch"}, classify, effect)
+		emit("roundTripFlow", rows, unk)
+	}
+
+	// (*Dialer).connect and (*connGroup).connect: every way out, and whether the socket is closed on it
+	last := ""
+	errClassify := func(names map[string]string, extra func(ast.Expr) string) func(ast.Expr) string {
+		return func(e ast.Expr) string {
+			if bx, ok := e.(*ast.BinaryExpr); ok && (bx.Op == token.EQL || bx.Op == token.NEQ) && src(f.fset, bx.Y) == "nil" && strings.HasPrefix(src(f.fset, bx.X), "err") {
+				neg := ""
+				if bx.Op == token.EQL {
+					neg = "!"
+				}
+				if p, ok := names[last]; ok {
+					return neg + p
+				}
+			}
+			return extra(e)
+		}
+	}
+	if fd := findFunc(f.files["dialer.go"], "Dialer", "connect"); fd != nil {
+		last = ""
+		classify := errClassify(map[string]string{"dial": "dialFailed", "split": "splitFailed", "auth": "authFailed"}, func(e ast.Expr) string {
+			t := src(f.fset, e)
+			switch {
+			case strings.HasSuffix(t, ".Timeout != 0"):
+				return "hasTimeout"
+			case strings.HasSuffix(t, ".Deadline.IsZero()"):
+				return "noDeadline"
+			case strings.HasSuffix(t, ".SASLMechanism != nil"):
+				return "sasl"
+			}
+			return ""
+		})
+		effect := func(n ast.Node) string {
+			switch x := n.(type) {
+			case *ast.CallExpr:
+				p := selPath(x.Fun)
+				switch {
+				case strings.HasSuffix(p, ".dialContext"):
+					last = "dial"
+					return "dial"
+				case p == "NewConnWith":
+					return "wrap"
+				case p == "splitHostPortNumber":
+					last = "split"
+					return "split"
+				case strings.HasSuffix(p, ".authenticateSASL"):
+					last = "auth"
+					return "auth"
+				case strings.HasSuffix(p, "onn.Close"):
+					return "close"
+				}
+			case *ast.ReturnStmt:
+				if len(x.Results) == 2 && src(f.fset, x.Results[1]) == "nil" {
+					return "return:conn"
+				}
+				return "return:error"
+			}
+			return ""
+		}
+		rows, unk := f.runScenariosFixed(fd, []string{"dialFailed", "sasl", "splitFailed", "authFailed"},
+			map[string]bool{"hasTimeout": false, "noDeadline": true}, nil, classify, effect)
+		emit("dialerConnectFlow", rows, unk)
+	}
+	if fd := findFunc(tr, "connGroup", "connect"); fd != nil {
+		last = ""
+		guard := ""
+		classify := errClassify(map[string]string{"dial": "dialFailed", "apiVersions": "apiVersionsFailed", "split": "splitFailed", "auth": "authFailed"}, func(e ast.Expr) string {
+			t := src(f.fset, e)
+			switch {
+			case strings.HasPrefix(t, "len(") && strings.HasSuffix(t, "> 1"):
+				return "manyAddresses"
+			case strings.HasSuffix(t, "ErrorCode != 0"):
+				return "versionsErrorCode"
+			case strings.HasSuffix(t, ".sasl != nil"):
+				return "sasl"
+			case strings.HasSuffix(t, ".ServerName == \"\""):
+				return "noServerName"
+			case strings.HasSuffix(t, "!= nil") && strings.Contains(strings.ToLower(t), "tls"):
+				return "tls"
+			}
+			return ""
+		})
+		effect := func(n ast.Node) string {
+			switch x := n.(type) {
+			case *ast.DeferStmt:
+				if fl, ok := x.Call.Fun.(*ast.FuncLit); ok && containsCall(fl.Body, ".Close") {
+					ast.Inspect(fl.Body, func(y ast.Node) bool {
+						if is, ok := y.(*ast.IfStmt); ok {
+							if bx, ok := is.Cond.(*ast.BinaryExpr); ok && bx.Op == token.NEQ && src(f.fset, bx.Y) == "nil" && containsCall(is.Body, src(f.fset, bx.X)+".Close") {
+								guard = src(f.fset, bx.X)
+							}
+						}
+						return true
+					})
+					if guard != "" {
+						return "defer:closeUnlessCleared"
+					}
+					return "defer:close?"
+				}
+			case *ast.GoStmt:
+				if strings.HasSuffix(selPath(x.Call.Fun), ".run") {
+					return "startRun"
+				}
+			case *ast.AssignStmt:
+				if guard != "" && len(x.Lhs) == 1 && src(f.fset, x.Lhs[0]) == guard && src(f.fset, x.Rhs[0]) == "nil" {
+					return "clearGuard"
+				}
+			case *ast.CallExpr:
+				p := selPath(x.Fun)
+				switch {
+				case strings.HasSuffix(p, ".dial"):
+					last = "dial"
+					return "dial"
+				case strings.HasSuffix(p, ".RoundTrip"):
+					last = "apiVersions"
+					return "apiVersions"
+				case strings.HasSuffix(p, ".SetVersions"):
+					return "setVersions"
+				case p == "splitHostPortNumber":
+					last = "split"
+					return "split"
+				case p == "authenticateSASL":
+					last = "auth"
+					return "auth"
+				}
+			case *ast.ReturnStmt:
+				if len(x.Results) == 2 && src(f.fset, x.Results[1]) == "nil" {
+					return "return:conn"
+				}
+				return "return:error"
+			}
+			return ""
+		}
+		rows, unk := f.runScenariosFixed(fd, []string{"dialFailed", "apiVersionsFailed", "versionsErrorCode", "sasl", "splitFailed", "authFailed"},
+			map[string]bool{"manyAddresses": false, "tls": false, "noServerName": false},
+			map[string]bool{"leave-loop": true, "next-iteration": true}, classify, effect)
+		emit("transportConnectFlow", rows, unk)
 	}
 	return b.String()
 }
